@@ -59,7 +59,18 @@ int main()
     if (ndim == 3 && rng.coin(0.3)) codir[2] = 1.;
     double bench = (ndim >= 2 && rng.coin(0.2)) ? rng.dyadic(0, 2, 2) + 0.25 : TEST;
     double cylrad = (ndim >= 2 && rng.coin(0.2)) ? rng.dyadic(0, 3, 2) + 0.25 : TEST;
-    DirParam* dir = DirParam::create(npas, dpas, toldis, tolang, 0, 0, bench, cylrad, 0., VectorDouble(), codir);
+    // irregular lag classes ]b_k, b_{k+1}] in a quarter of the configurations: the first break is 0 or positive
+    // (pairs nearer than the first break, or at distance 0 = duplicated locations, belong to no class)
+    VectorDouble breaks;
+    if (rng.coin(0.25))
+    {
+      double b = rng.coin(0.4) ? 0. : (2. * rng.range(0, 12) + 1.) / 16.;
+      breaks.push_back(b);
+      for (int k = 0; k < npas; k++) { b += (2. * rng.range(1, 20) + (k == 0 && breaks[0] == 0. ? 1. : 2.)) / 16.; breaks.push_back(b); }   // odd/16 boundaries
+      if (rng.coin(0.3) && nech >= 4) { int i = (int)rng.range(0, nech - 1), j = (int)rng.range(0, nech - 1); if (i != j) { X[j] = X[i]; for (int d = 0; d < ndim; d++) db->setCoordinate(j, d, X[i][d]); st.hit("duplicated_location"); } }
+      st.hit("irregular_classes");
+    }
+    DirParam* dir = DirParam::create(npas, dpas, toldis, tolang, 0, 0, bench, cylrad, 0., breaks, codir);
     if (dir == nullptr) { delete db; continue; }
     VarioParam vp; vp.addDir(*dir);
     bool order4 = rng.coin(0.25);
@@ -74,9 +85,9 @@ int main()
       for (int a = 0; a < nvar; a++) for (int b = 0; b <= a; b++)
       {
         VectorDouble sw = vario->getSwVec(0, a, b, false), hh = vario->getHhVec(0, a, b, false), gg = vario->getGgVec(0, a, b, false, false, false);
-        printf("v vario calc=%s ndim=%d nvar=%d nech=%d X=%s Z=%s W=%s act=%s codir=%s psmin=%s bench=%s cylrad=%s npas=%d dpas=%s toldis=%s ivar=%d jvar=%d => sw=%s hh=%s gg=%s\n",
+        printf("v vario calc=%s ndim=%d nvar=%d nech=%d X=%s Z=%s W=%s act=%s codir=%s psmin=%s bench=%s cylrad=%s npas=%d dpas=%s toldis=%s breaks=%s ivar=%d jvar=%d => sw=%s hh=%s gg=%s\n",
                order4 ? "order4" : "variogram", ndim, nvar, nech, vecD(xs).c_str(), vecDNA(zs).c_str(), vecDNA(ws).c_str(), act.c_str(), vecD(cd).c_str(), dy(psmin).c_str(),
-               dyNA(bench).c_str(), dyNA(cylrad).c_str(), npas, dy(dpas).c_str(), dy(toldis).c_str(), a, b,
+               dyNA(bench).c_str(), dyNA(cylrad).c_str(), npas, dy(dpas).c_str(), dy(toldis).c_str(), breaks.empty() ? "-" : vecD(std::vector<double>(breaks.begin(), breaks.end())).c_str(), a, b,
                vecD(sw).c_str(), vecDNA(hh).c_str(), vecDNA(gg).c_str());
         st.hit(a == b ? "direct_variograms" : "cross_variograms");
       }
